@@ -299,17 +299,13 @@ def rule_no_recursion(report, prog, res, rule='C08-R3'):
                      % ' -> '.join(cyc + (cyc[0],)))
     report.ok(rule, key('nfc.tag', 'every call cycle reachable from a tag operation counts down'), None,
               detail='%d functions of nfc.tag visited from the public operations of every tag class, %d cycles' % (len(visited), len(cycles)))
-    # canary: the same search on a variant in which send_apdu answers a status word by calling itself
+    # canary: the same search on an in-memory variant of nfc.tag.tt4 with one more tag class whose operation calls itself
     m = prog.modules['nfc.tag.tt4']
-    src = m.source if hasattr(m, 'source') else open(m.path).read()
-    anchor = '        apdu = self.transceive(apdu)\n'
-    if src.count(anchor) == 1:
-        from ..model import Program
-        variant = Program(src=prog.src, overrides={'nfc.tag.tt4': src.replace(anchor, anchor + '        if len(apdu) == 2 and apdu[0] == 0x6C:\n            return self.send_apdu(cla, ins, p1, p2, data, apdu[1])\n')})
-        vc, _ = tag_cycles(variant, Resolver(variant), only='nfc.tag.tt4')
-        report.canary('C08-R3 recursion canary', ('nfc.tag.tt4.Type4Tag.send_apdu',) in vc)
-    else:
-        report.canary('C08-R3 recursion canary', bool(cycles))       # anchor gone: only a tree that has a cycle of its own shows the rule firing
+    from ..model import Program
+    extra = '\n\nclass CanaryTag(Type4Tag):\n    def probe(self, n):\n        return self.probe(n)\n\n    def plain(self, n):\n        return n\n'
+    variant = Program(src=prog.src, overrides={'nfc.tag.tt4': m.source + extra})
+    vc, _ = tag_cycles(variant, Resolver(variant), only='nfc.tag.tt4')
+    report.canary('C08-R3 recursion canary', ('nfc.tag.tt4.CanaryTag.probe',) in vc and not any('plain' in q for c_ in vc for q in c_))
 
 
 def rule_progress(report, prog):
